@@ -29,6 +29,12 @@ def gen(rng, tier, index):
         cfg["in_prefix"] = rng.choice(["", "gw-out"])
         cfg["out_prefix"] = rng.choice(["", "gw-in"])
     ops = netgen.make_ops(rng, cfg["version"], rng.randint(8, 45), WEIGHTS, nodes=(1, 3))
+    if rng.random() < 0.3:
+        edge = [["line", f"0;255;0;0;18;{rng.choice(['1.5', '2.0', '2.2.0'])}"], ["line", "0;1;0;0;6;gw temp"], ["line", "0;1;1;0;0;21.5"]]
+        if rng.random() < 0.4:
+            edge += [["line", "255;255;0;0;17;2.1"], ["line", "255;0;0;0;3;x"]]
+        pos = rng.randrange(0, len(ops) + 1)
+        ops[pos:pos] = edge
     # the run always ends with: (maybe a tick) one last change of a drawn handler kind, then stop
     tail_rng = rng.random()
     if tail_rng < 0.5:
@@ -50,7 +56,11 @@ def gen(rng, tier, index):
         # stop() racing with a scheduled save that has something to write
         cfg["sched"] = {"policy": "rw", "seed": rng.getrandbits(32), "p": rng.choice([0.02, 0.08, 0.2])}
         cfg["max_steps"] = 1_500_000
-        ops.append(["stop_at_tick"])
+        if cfg["flavour"] not in ("mqtt", "amqtt") and rng.random() < 0.5:
+            # ... while a line arrives that is handled during that save
+            ops.append(["stop_at_tick", {"line": f"{rng.choice([1, 2, 3])};255;3;0;11;arrived during the last save"}])
+        else:
+            ops.append(["stop_at_tick"])
     elif rng.random() < 0.25:
         # the network delivers one more line at the moment the final save has been written
         late = netgen.make_ops(rng, cfg["version"], 1, dict(WEIGHTS, advance=0, restart=0, garbage=0, invalid_frame=0, ctl_set=0, ctl_fw=0, adopt=0), nodes=(1, 1))[-1]
